@@ -9,10 +9,15 @@ call* that is recorded and may raise a scripted exception.  The recorded call se
   * judged by an oracle written from the property text (independent of the model).
 """
 import errno
+import gc
 import io
 import os
+import socket
 import struct
+import subprocess
 import sys
+import threading
+import types
 
 import common
 from common import hexb
@@ -25,7 +30,11 @@ RULE = ("a case = (script, fault map): the script fixes mode (foreground/daemon,
         "how the session ends (SIGINT, SIGTERM, ssh death with any status, with or without EOF on its stdout; "
         "non-frame bytes on the tunnel while ssh stays alive); the fault map makes the k-th stub "
         "call raise one of 9 exception kinds (Fatal, OSError EPIPE/ECONNRESET/EAGAIN/EIO, KeyboardInterrupt, "
-        "SystemExit, AssertionError, Exception) — ALL k of the run x all kinds for every script, plus random "
+        "SystemExit, AssertionError, Exception) — ALL k of the run x all kinds for every script; a second stream "
+        "runs the real FirewallClient (__init__/setup/start/done) over a real socketpair against a helper "
+        "stand-in thread and judges, on the real descriptor, that the helper reads EOF however the session "
+        "ends (and that READY follows the helper's STARTED; a helper that exits after GO without STARTED, "
+        "with poll() answering 0 as after ECHILD or None-then-status, ends the session); plus random "
         "double faults (one in the body, one in the finally part); non-trivial = the run got past ssh.connect; "
         "distinct = distinct canonical input line")
 MANIFEST = dict(
@@ -238,6 +247,9 @@ class HelperProc:
 
     def poll(self):
         self.w.call('fwpoll')
+        self.npoll = getattr(self, 'npoll', 0) + 1
+        if self.npoll > 1 and 'hpoll_later' in self.w.s:
+            return self.w.s['hpoll_later']      # foreground race: None first, the exit status afterwards
         return self.w.s['hpoll']
 
     def wait(self):
@@ -379,6 +391,74 @@ class Stdout:
         self.w.call('outflush')
 
 
+class HelperStandIn:
+    """The far end of the real control channel: what `Popen(argv, stdout=s1, stdin=s1)` would have
+    started.  Speaks the helper's side of the dialogue on a dup of the descriptor the child would have
+    inherited, in a thread, and records what it saw (hSTARTED / hDIED / hEOF / hTIMEOUT) in the event log."""
+    WAIT = 0.6       # how long the client side may take to deliver EOF once it is done
+
+    def __init__(self, w, argv, stdout=None, stdin=None, env=None, preexec_fn=None):
+        self.w = w
+        self.returncode = None
+        self.pid = 0x3ffffff1
+        self.sock = socket.socket(fileno=os.dup(stdout.fileno()))
+        self.thread = threading.Thread(target=self.serve, daemon=True)
+        self.thread.start()
+
+    def serve(self):
+        w = self.w
+        mode = w.s.get('helper', 'ok')
+        self.sock.settimeout(5.0)
+        f = self.sock.makefile('rwb')
+        try:
+            f.write(b'READY fake\n')
+            f.flush()
+            while True:
+                line = f.readline()
+                if not line:
+                    w.mark('hEOF0')          # client went away before GO: nothing to restore
+                    return
+                if line.startswith(b'GO '):
+                    break
+            if mode == 'die':
+                w.mark('hDIED')              # set-up failed: exits without ever writing STARTED
+                return
+            w.mark('hSTARTED')
+            f.write(b'STARTED\n')
+            f.flush()
+            while True:
+                line = f.readline()
+                if not line:
+                    w.mark('hEOF')           # this is what makes the real helper restore the rules
+                    return
+        except (OSError, ValueError):
+            w.mark('hTIMEOUT')
+        finally:
+            try:
+                f.close()
+            except OSError:
+                pass
+            self.sock.close()
+
+    def poll(self):
+        w = self.w
+        if w.s.get('helper', 'ok') == 'die' and any(e == 'hDIED' for e in w.events):
+            self.npoll = getattr(self, 'npoll', 0) + 1
+            if self.npoll > 1 and 'hpoll_later' in w.s:
+                return w.s['hpoll_later']
+            return w.s['hpoll']              # as the OS would answer (daemon: ECHILD -> 0; race: None)
+        return self.returncode
+
+    def wait(self):
+        self.w.mark('wait')
+        if self.returncode is not None:      # subprocess.Popen.wait() with a known returncode
+            return self.returncode
+        self.thread.join(self.WAIT)
+        if self.thread.is_alive():
+            self.w.mark('waitHUNG')          # the real client would sit in waitpid() for ever
+        return 0
+
+
 def _mods():
     import sshuttle.ssnet as ssnet
     import sshuttle.client as client
@@ -390,10 +470,14 @@ def _mods():
     return ssnet, client, helpers, ssh, sdnotify, BaseMethod
 
 
-def run_real(script, faults):
-    """Run the real client.main on the scripted world.  Returns (events, outcome, world)."""
+def run_real(script, faults, realfw=False):
+    """Run the real client.main on the scripted world.  Returns (events, outcome, world).
+    `realfw`: the real FirewallClient (__init__/setup/start/done) over a real socketpair to a
+    HelperStandIn instead of the recording subclass."""
     ssnet, client, helpers, ssh, sdnotify, BaseMethod = _mods()
     w = World(script, faults, helpers)
+    instances = []
+    standins = []
     OrigFw, OrigListener, OrigMux = client.FirewallClient, client.MultiListener, ssnet.Mux
 
     class Method(BaseMethod):
@@ -419,6 +503,20 @@ def run_real(script, faults):
         def start(self):
             OrigFw.start(self)
             w.mark('started')
+
+    class RealFw(OrigFw):
+        def __init__(self, method_name, sudo_pythonpath):
+            instances.append(self)
+            OrigFw.__init__(self, method_name, sudo_pythonpath)
+
+        def start(self):
+            OrigFw.start(self)
+            w.mark('started')
+
+    def popen(argv, **kw):
+        h = HelperStandIn(w, argv, **kw)
+        standins.append(h)
+        return h
 
     nlisten = [0]
 
@@ -485,7 +583,13 @@ def run_real(script, faults):
         daemon_cleanup=client.daemon_cleanup)
     s_connect, s_runonce, s_select, s_sslog, s_send = ssh.connect, ssnet.runonce, ssnet.select, ssnet.log, sdnotify.send
     s_stdout, s_stderr, s_prefix, s_verbose = sys.stdout, sys.stderr, helpers.logprefix, helpers.verbose
+    s_sub, s_admin, s_getm = client.ssubprocess, client.is_admin_user, client.get_method
     client.FirewallClient = RecFw
+    if realfw:
+        client.FirewallClient = RealFw
+        client.ssubprocess = types.SimpleNamespace(Popen=popen, PIPE=subprocess.PIPE)
+        client.is_admin_user = lambda: True
+        client.get_method = lambda name: Method('fake')
     client.MultiListener = RecListener
     client.Mux = RecMux
     client.log = lambda s: None
@@ -524,11 +628,55 @@ def run_real(script, faults):
     finally:
         for k, v in saved.items():
             setattr(client, k, v)
+        client.ssubprocess, client.is_admin_user, client.get_method = s_sub, s_admin, s_getm
         ssh.connect, ssnet.runonce, ssnet.select, ssnet.log, sdnotify.send = \
             s_connect, s_runonce, s_select, s_sslog, s_send
         os.kill = real_kill
         sys.stdout, sys.stderr, helpers.logprefix, helpers.verbose = s_stdout, s_stderr, s_prefix, s_verbose
+    if realfw:
+        # the client is done; give the far end a moment (daemon mode does not wait for it), take the
+        # verdict, then release whatever the client side still holds and collect the thread
+        for h in standins:
+            h.thread.join(HelperStandIn.WAIT)
+        w.verdict_events = list(w.events)
+        w.helper_alive = [h.thread.is_alive() for h in standins]
+        for fw in instances:
+            for v in list(vars(fw).values()):
+                for x in (v if isinstance(v, (list, tuple)) else [v]):
+                    if isinstance(x, socket.socket) or hasattr(x, 'readline'):
+                        try:
+                            x.close()
+                        except OSError:
+                            pass
+            if getattr(fw, 'method', None) is not None:
+                fw.method.firewall = None
+        del instances[:]
+        gc.collect()
+        for h in standins:
+            h.thread.join(6.0)
     return w.events, outcome, w
+
+
+def oracle_realfw(script, faults, events, outcome, w):
+    """The property on the real descriptor: whatever ended the session, the helper reads EOF."""
+    bad = []
+    ev = w.verdict_events
+    if any(w.helper_alive) or 'waitHUNG' in ev or 'hTIMEOUT' in ev:
+        bad.append(('C12:real-fd:helper-no-eof',
+                    'after client.main has ended (for any reason) the helper reads EOF on its control channel',
+                    'helper stand-in still blocked in read %.1fs after client.main ended with %s; trace: %s'
+                    % (HelperStandIn.WAIT, outcome, ' '.join(ev))))
+    if 'ready' in ev and ('hSTARTED' not in ev or ev.index('hSTARTED') > ev.index('ready')):
+        bad.append(('C12:ready-before-confirm', 'READY=1 only after the helper wrote STARTED',
+                    'ready without/before the helper\'s STARTED; trace: %s' % ' '.join(ev)))
+    if 'hDIED' in ev:
+        i = ev.index('hDIED')
+        later = [e for e in ev[i:] if e.startswith('run') or e == 'started']
+        if later:
+            bad.append(('C12:loop-after-unconfirmed-start',
+                        'a helper that exits after GO without STARTED ends the session (Fatal out of fw.start())',
+                        'after the helper died: %s; trace: %s' % (','.join(later), ' '.join(ev))))
+    return bad
 
 
 # ------------------------------------------------------------------ model input line
@@ -626,6 +774,17 @@ def oracle(script, faults, events, outcome, w):
                 bad.append(('C12:ready-before-confirm', 'READY=1 only after GO was sent, STARTED was read back and the helper was alive',
                             'ready at event %d; readline results before it: %r; helper poll=%r'
                             % (i, [x[2] for x in w.info if x[1] == 'line' and x[0] < i], script['hpoll'])))
+    # R8: the helper never confirmed (readline gave something else than STARTED, e.g. EOF because it
+    # exited after GO) => fw.start() must not return, the loop must not go on
+    for x in w.info:
+        if x[1] == 'line' and x[2] != b'STARTED\n':
+            later = [e for e in ev[x[0]:] if e.startswith('run') or e == 'started']
+            if later:
+                bad.append(('C12:loop-after-unconfirmed-start',
+                            'a reply other than STARTED (EOF included) raises out of fw.start(); no further loop round',
+                            'readline returned %r at event %d (helper poll answers %r then %r); afterwards: %s'
+                            % (x[2], x[0], script['hpoll'], script.get('hpoll_later', script['hpoll']), ','.join(later))))
+            break
     # R3: wrong/missing handshake or dead ssh => Fatal, nothing sent to the helper
     if not hs_ok(all_hs) or script['poll0'] is not None:
         if writes:
@@ -774,8 +933,10 @@ def gen_script(rng, ssnet, flavour):
             steps.append(dict(alive=None, arrive=None, grant=None, accept=rng.randrange(2)))
     s['steps'] = steps
     if flavour == 'helper':
-        s['line'] = rng.choice([b'', b'STARTED', b'ERROR\n', b'STARTED\n', b'started\n'])
-        s['hpoll'] = rng.choice([None, 0, 1, 99])
+        s['line'] = rng.choice([b'', b'', b'STARTED', b'ERROR\n', b'STARTED\n', b'started\n'])
+        s['hpoll'] = rng.choice([None, 0, 0, 1, 99])
+        if s['hpoll'] is None and rng.random() < 0.5:
+            s['hpoll_later'] = rng.choice([1, 99])
     if flavour == 'bigseed':
         s['seed'] = rng.choice([9000, 20000])
         s['lat'] = 1
@@ -869,6 +1030,12 @@ def fixed_scripts(ssnet):
                     steps=[dict(alive=None, arrive=None, grant=4096, accept=0), dict(alive=None, arrive='E', grant=None, accept=0),
                            dict(alive=None, arrive=None, grant=None, accept=0), dict(alive=0, arrive=None, grant=None, accept=0)]))
     quiet = dict(alive=None, arrive=None, grant=None, accept=0)
+    # the helper exits after GO without STARTED: readline gives EOF; poll() answers as the OS would —
+    # daemon mode: not our child any more, ECHILD, Popen reports 0; foreground race: None first, status later
+    out.append(dict(base, daemon=1, end='sysexit', hs=[sync + r], line=b'', hpoll=0,
+                    steps=[dict(quiet), dict(quiet), dict(quiet)]))
+    out.append(dict(base, hs=[sync + r], line=b'', hpoll=None, hpoll_later=1,
+                    steps=[dict(quiet), dict(quiet), dict(quiet)]))
     # non-frame bytes on the tunnel after the helper was started, ssh stays alive for 4 more rounds
     for d in (0, 1):
         out.append(dict(base, daemon=d, end='sysexit' if d else 'kbint', hs=[sync + r],
@@ -1022,8 +1189,61 @@ def env_probe(ctx):
                       observed=dict(data_then_eof=ok_a, flush_raised=raised, descriptor_released=released), kind='input')
 
 
+def realfw_scripts(ssnet):
+    base = dict(daemon=0, udp=0, lat=1, auto=0, seed=None, inc=1, exc=0, ns=0, poll0=None, line=b'STARTED\n',
+                hpoll=None, wait=0, end='kbint')
+    sync = b'\0\0' + SYNC
+    r = fr(0, ssnet.CMD_ROUTES, b'2,10.0.0.0,8\n')
+    quiet = dict(alive=None, arrive=None, grant=None, accept=0)
+    out = []
+    for d in (0, 1):
+        # ordinary session that ends because ssh exits after readiness
+        out.append(dict(base, daemon=d, hs=[sync + r], steps=[dict(quiet, grant=4096), dict(quiet, alive=1, arrive='E')]))
+        # helper exits after GO without STARTED (daemon: poll() -> 0; foreground race: None, later 1)
+        out.append(dict(base, daemon=d, hs=[sync + r], helper='die', hpoll=(0 if d else None), hpoll_later=(0 if d else 1),
+                        steps=[dict(quiet), dict(quiet)]))
+    out.append(dict(base, hs=[sync], end='kbint',
+                    steps=[dict(quiet, arrive=r), dict(quiet, arrive=fr(0, ssnet.CMD_HOST_LIST, b'h,1.2.3.4\n')), dict(quiet)]))
+    out.append(dict(base, hs=[b'\0\0SSHUTTLE0002'], steps=[dict(quiet)]))        # bad handshake: EOF before GO
+    return out
+
+
+def nfds():
+    return len(os.listdir('/proc/self/fd'))
+
+
+def realfw_stream(ctx):
+    """Real FirewallClient over a real socketpair: the helper must read EOF however the session ends."""
+    ssnet = _mods()[0]
+    fds0, thr0 = nfds(), threading.active_count()
+    nbad = 0
+    for s in realfw_scripts(ssnet):
+        ev, outcome, w = run_real(s, {}, realfw=True)
+        todo = [{}]
+        ncalls = w.calls
+        kinds = KINDS if ctx.thorough else ['fatal', 'kbint', 'other', 'os5']
+        todo += [{k: kind} for k in range(ncalls) for kind in kinds]
+        for f in todo:
+            if nbad >= 3:
+                break
+            ev, outcome, w = run_real(s, f, realfw=True)
+            ctx.count()
+            ctx.hist('real-fd')
+            ctx.mark(('realfw', ser_script(s), sorted(f.items())), nontrivial=(0 not in f))
+            for key, exp, obs in oracle_realfw(s, f, ev, outcome, w):
+                nbad += 1
+                ctx.violation(key, case=dict(realfw=True, script=ser_script(s), faults={str(k): v for k, v in f.items()}),
+                              expected=exp, observed=obs, kind='faults')
+        ctx.sample(dict(stream='real FirewallClient over a socketpair', script=ser_script(s), real_code_trace=' '.join(ev) + ' ' + outcome), limit=8)
+    gc.collect()
+    if nfds() != fds0 or threading.active_count() != thr0:
+        ctx.notes.append('real-fd stream left descriptors/threads behind: fds %d -> %d, threads %d -> %d'
+                         % (fds0, nfds(), thr0, threading.active_count()))
+
+
 def run(ctx):
     env_probe(ctx)
+    realfw_stream(ctx)
     cases = gen_cases(ctx)
     for c in cases:
         ctx.mark(c.line, nontrivial=(0 not in c.faults))
@@ -1045,6 +1265,11 @@ def replay(ctx, rep):
         return bool(c2.violations), 'environment probe: %r' % (c2.violations[:1] or 'as assumed')
     s = deser_script(case['script'])
     faults = {int(k): v for k, v in case['faults'].items()}
+    if case.get('realfw'):
+        ev, outcome, w = run_real(s, faults, realfw=True)
+        bad = oracle_realfw(s, faults, ev, outcome, w)
+        return bool(bad), 'trace: %s %s; oracle: %s' % (' '.join(w.verdict_events), outcome,
+                                                        '; '.join('%s (%s)' % (b[0], b[2][:200]) for b in bad) or 'silent')
     ev, outcome, w = run_real(s, faults)
     bad = oracle(s, faults, ev, outcome, w)
     key = rep.get('key')
